@@ -94,7 +94,8 @@ def mk_prog(defs, cfg):
     ds = []
     for d in defs:
         f, sites, lim = d[0], d[1], d[2]
-        ds.append(sc.Defn(f, [sc.Site(**s) for s in sites], lim, reads_ctx=(len(d) > 3 and d[3])))
+        ds.append(sc.Defn(f, [sc.Site(**s) for s in sites], lim, reads_ctx=(len(d) > 3 and d[3] is True),
+                          lazy_ctx=(len(d) > 3 and d[3] == "lazy")))
     return sc.Program(ds, dict(cfg))
 
 
@@ -139,7 +140,10 @@ def one_run(ctx, p, decisions=None, rng=None, items=None, tag="random", p_comple
             exp = None
         if exp is not None and payload != exp:
             sig = c05_signature(p, payload, exp)
-            ctx.violation(sig, "run returned a value different from the reference evaluation (a duplicate received another call's result)",
+            # a value shared between calls with DIFFERENT contexts is C05's subject (same programs run there); C06's duplicates
+            # are calls with the same task hash, argument hash and context
+            if not sig.startswith("C05-"):
+              ctx.violation(sig, "run returned a value different from the reference evaluation (a duplicate received another call's result)",
                           case=case, expected=repr(exp)[:300], actual=repr(payload)[:300], kind="schedule")
     items.append((p, ctl, False, None, case))
     if any(it[0] == "e" for it in ctl.memo_log):
@@ -179,7 +183,7 @@ def c05_signature(p, got, exp):
     def walk(i, g, e):
         sp = p.specs[i]
         d = p.defs[sp["callee"]]
-        n_head = 3 if d.reads_ctx else 1
+        n_head = 3 if (d.reads_ctx or d.lazy_ctx) else 1
         if not isinstance(g, list) or g[:n_head] != e[:n_head] or len(g) != len(e):
             return i
         for k, gg, ee in zip(sp.get("site_child", []), g[n_head:], e[n_head:]):
@@ -215,6 +219,17 @@ def run(ctx):
             base.flush(ctx, items)
             flush_memo(ctx)
             _opt_cache.clear()
+    base.flush(ctx, items)
+    flush_memo(ctx)
+    # sequenced duplicates (the same call at increasing depth, under the same or another context, CSE-only or not): a later
+    # duplicate meets its twin running, evaluating, resolved or finalized - and the same call node recorded under several contexts
+    for i in range(ctx.n(24, 500)):
+        p = sc.gen_chain(rng, p_lazy=0.25, p_cse=0.5)
+        for k in range(2):
+            one_run(ctx, p, rng=random.Random(rng.random()), items=items, tag="chain", p_complete=rng.choice([0.3, 0.7, 0.95]))
+        if len(items) >= 50:
+            base.flush(ctx, items)
+            flush_memo(ctx)
     base.flush(ctx, items)
     flush_memo(ctx)
 
